@@ -263,6 +263,74 @@ func ringClearRule(c *Ctx, rule string) {
 		return
 	}
 	shift, N := rs.shifts[0], rs.arrLen
+	// the function that holds the zero stores: Mark, or a local helper cut out of it (the window advance).
+	// A helper is analysed under what Mark establishes at every call of it: argument > stored top.
+	hasZeroStore := func(f *ssa.Function) bool {
+		found := false
+		eachInstr(f, func(ins ssa.Instruction) {
+			if st, ok := ins.(*ssa.Store); ok {
+				if ia, ok := st.Addr.(*ssa.IndexAddr); ok && lastField(ia.X) == fBlocks {
+					if k, isC := constInt(st.Val); isC && k == 0 {
+						found = true
+					}
+				}
+				if fa, ok := st.Addr.(*ssa.FieldAddr); ok && fieldOf(fa.X.Type(), fa.Field) == fBlocks {
+					found = true
+				}
+			}
+		})
+		return found
+	}
+	var assume func(a *boundsAn)
+	if !hasZeroStore(mrk) {
+		var helper *ssa.Function
+		var site *ssa.Call
+		eachInstr(mrk, func(ins ssa.Instruction) {
+			if call, ok := ins.(*ssa.Call); ok {
+				if g := staticCallee(&call.Call); g != nil && g != mrk && len(g.Blocks) > 0 && P.OwnedBy(g, mrk) && hasZeroStore(g) {
+					helper, site = g, call
+				}
+			}
+		})
+		if helper != nil && len(helper.Params) == 2 && len(site.Call.Args) == 2 {
+			// guarantee side: at the call, the argument is above the stored top of the same window
+			mf := ComputeMustFacts(mrk)
+			above := false
+			for k, v := range mf.At(site) {
+				if k.op == token.LSS && v && lastField(k.x) == fTop && strip(k.y) == strip(site.Call.Args[1]) {
+					above = true
+				}
+			}
+			usable := above && lookThrough(site.Call.Args[0]) == ssa.Value(mrk.Params[0]) && len(P.Callers(helper)) == 1
+			if !usable {
+				mrk = helper // judged without any assumption about its argument
+			}
+			if usable {
+				h := helper
+				assume = func(a *boundsAn) {
+					if a.fn != h {
+						return
+					}
+					// every load of the top that no store precedes holds the top the caller compared with
+					eachInstr(h, func(ins ssa.Instruction) {
+						u, ok := ins.(*ssa.UnOp)
+						if !ok || u.Op != token.MUL || lastField(u) != fTop {
+							return
+						}
+						if a.reachingField(u) != nil {
+							if r := a.reachingField(u); r != ssa.Value(u) {
+								if _, isLoad := r.(*ssa.UnOp); !isLoad {
+									return // a store precedes
+								}
+							}
+						}
+						a.addDef(a.formOf(h.Params[1]).sub(a.formOf(u)).sub(linConst(1)))
+					})
+				}
+				mrk = helper
+			}
+		}
+	}
 	// cur and new
 	var curV, newV []ssa.Value
 	eachInstr(mrk, func(ins ssa.Instruction) {
@@ -345,6 +413,6 @@ func ringClearRule(c *Ctx, rule string) {
 			{ins, "cleared slot belongs to a block not above the new top", a.formOf(nw).sub(ef)},
 		}
 	}
-	rangeRule(c, rule, []*ssa.Function{mrk}, gen, "Mark forgets counters that may still be inside the window (a genuine packet replayed from that band is accepted a second time)", "zero stores into the ring in Mark", 1)
+	rangeRuleAssuming(c, rule, []*ssa.Function{mrk}, gen, assume, "Mark forgets counters that may still be inside the window (a genuine packet replayed from that band is accepted a second time)", "zero stores into the ring in Mark", 1)
 	_ = nStores
 }
